@@ -35,7 +35,7 @@ def check(spec: dict) -> core.CaseResult:
         labels.append('fail=' + ex.why[i])
     if any(w.startswith('dep:') for w in ex.why.values()):
         labels.append('reader_of_failed_dependency')
-    return dagprop.result(obs, findings, nt, labels, prop='C10')
+    return dagprop.result(obs, findings, nt, labels, hang_is_violation=True, prop='C10')
 
 
 def plan(tier: str) -> list[dict]:
@@ -44,7 +44,7 @@ def plan(tier: str) -> list[dict]:
 
 def run_job(rec: core.Recorder, job: dict, seed: int) -> None:
     eng = job['engine']
-    fail = ['raise:ValueError', 'raise:KeyError', 'raise:CustomErr', 'raise:UnpicklableErr', 'exit', 'baseexc']
+    fail = ['raise:ValueError', 'raise:KeyError', 'raise:CustomErr', 'raise:UnpicklableErr', 'exit', 'baseexc', 'raisefrom']
     if eng != 'serial':
         fail += ['kill9', 'kill15']
     strat = specs.dag_spec(min_nodes=2, max_nodes=5 if eng == 'spawn' else 9, backends=(eng,), fail_modes=fail, fail_rate=30,
